@@ -641,6 +641,16 @@ C02.rule = C02.rule.replace("; non-trivial = ", "; `fs calls` over r (poll_recv_
 C02.level_text += ("; split() is the identity on the frame-layer state (buffer, end-of-stream flag, expected memo, remaining_data): "
                    "call sequences with splits anywhere answer like the same sequences without them, also for the request-body "
                    "reader poll_recv_data, whose frame-layer answers stay a prefix of the reference automaton's tokens")
+C02.rule = C02.rule.replace("; non-trivial = ", "; (6) declared lengths of 2^30-1 (largest 4-byte form), 2^30, 2^32, 2^62-1 (thorough also "
+                            "2^32-1, 2^31, 2^32+255, 2^61, 2^62-2) with three payload bytes, for DATA, HEADERS, SETTINGS, GOAWAY, CANCEL_PUSH, "
+                            "MAX_PUSH_ID, unknown 0x21 in one- and two-byte form and the largest reserved type: `frame dec`, `fs loop` whole / "
+                            "cut inside the length field / after the header / byte by byte x fin/open(/reset), `fs calls` in both call "
+                            "languages (classes with the suffix /huge; also corpus/C02/huge_lengths.txt); the NOTE line `R-02s undecided` "
+                            "counts, from this run's answers re-judged by the strict ops, the lines whose verdict depends on reading R-02s"
+                            "; non-trivial = ")
+C02.level_text += ("; whenever Frame::decode answers Incomplete(m), m <= buffered + 1 or m < 2^62 + 2, so `remaining + 1` and `2 + len` "
+                   "stay inside a 64-bit usize (C02_incomplete_no_wrap)")
+C02.assumptions = C02.assumptions + ["usize is 64 bits wide (`len as usize` keeps a 62-bit declared length; on a 32-bit target it would truncate)"]
 C02.level_note += ("; split() is reached through a real client::RequestStream (send_request over a one-stream scripted transport), "
                    "the only public way to FrameStream::split")
 
